@@ -1,0 +1,6 @@
+//! Additive, read-only access for the external verification harness.
+//! Compiled only with the `verif-hooks` cargo feature; nothing in the crate depends on it.
+
+/// The crate-private allocator interface, so that the harness can drive the collections with
+/// a fault-injecting allocator.
+pub use crate::alloc::{AllocError, AllocProxy, Allocator, CaoLangAllocator, SysAllocator};
